@@ -9,6 +9,9 @@ func init() {
 	reg.Register("as-cells", func(a reg.Args) (interface{}, error) {
 		return as.RunCells(a.In, a.Out, a.Seed, a.Sample, a.Reps, a.Workers, a.Base, a.NoShuffle)
 	})
+	reg.Register("as-pairs", func(a reg.Args) (interface{}, error) {
+		return as.RunPairs(a.Out, a.Seed, a.N, a.Workers)
+	})
 	reg.Register("as-hist", func(a reg.Args) (interface{}, error) {
 		return as.RunHistories(a.Out, a.Seed, a.N, a.Steps, a.Workers, a.Only)
 	})
